@@ -260,7 +260,10 @@ class CallTracer:
         if trace is None:
             return
         elif last_opcode == YIELD_VALUE_OPCODE:
-            trace.add_yield_type(typ)
+            # A coroutine suspending on an `await` also leaves its frame through
+            # YIELD_VALUE, but that is not a yield of the traced function.
+            if not frame.f_code.co_flags & inspect.CO_COROUTINE:
+                trace.add_yield_type(typ)
         else:
             if last_opcode in RETURN_OPCODES:
                 trace.return_type = typ
